@@ -46,7 +46,7 @@ def classify_trace(rec):
 
 def only(prop):
     def f(r):
-        if owner(r["what"], r["cfg"], r.get("calls", 0)) == prop:
+        if prop in owners(r["what"], r["cfg"], r.get("calls", 0)):
             return classify(dict(r))
         return None
     return f
@@ -476,6 +476,7 @@ def check_C15(res, scratch, tier, seed):
 
 
 # ------------------------------------------------------------------ corpus part shared by the family checks
+import itertools
 import corpus as _corpus
 
 
@@ -551,7 +552,9 @@ def check_C09(res, scratch, tier, seed):
     mine = lambda r: classify(dict(r)) if owner(r["what"], r["cfg"], r.get("calls", 0)) == "C09" else None
     all_groups = []
     # --- part 1: corpus judged by TLC
-    ents = corpus_entries(tier, seed, ("curated", "amb_chains", "chains", "random", "random_err", "random_trans", "wide"))
+    ents = corpus_entries(tier, seed, ("curated", "amb_chains", "random", "random_err", "random_trans", "wide"))
+    if tier == "quick":      # every third entry of the chain families (orders of alternatives / rules are permutations of each other)
+        ents = [e for i, e in enumerate(ents) if not e["id"].startswith(("ambchain", "depthchain")) or i % 3 == 0]
     vecs = corpus_vectors(res, scratch, "corpus_C09", ents, trees=False, timeout=3000)
     blocks = [b for b in (blocks_from_vector(v, matrix, mems=(0, 1), want_trees=False) for v in vecs.values()) if b]
     recs, st = run_harness(os.path.join(builds[0], "yv_replay"), blocks, args=("-t",))
@@ -597,6 +600,19 @@ def check_C09(res, scratch, tier, seed):
     recs, st = run_harness(os.path.join(builds[0], "yv_replay"), blocks, args=("-t",), timeout=1500)
     handle_c09_recs(res, recs, mine, {})
     all_groups += la_groups(recs)
+    # --- cache stress: inputs that make the parser go back and then meet the same (set, terminal) pairs again; every reuse is re-computed
+    #     afresh by the hook and compared (second sentence of C09), outcomes grouped by lookahead level as above
+    cur = {e["id"]: e for e in _corpus.curated()}
+    sb = dict(cur["brackets"], inputs=_corpus.bracket_fragment_inputs(seed, 1500 if tier == "quick" else 15000))
+    ss = dict(cur["staleplace"], inputs=[list(w) for k in range(4, 9 if tier == "quick" else 11) for w in itertools.product([1, 2, 3], repeat=k)])
+    sblocks = []
+    for e in (sb, ss):
+        for i in range(0, len(e["inputs"]), 500):
+            vec = {"id": e["id"], "terms": e["terms"], "rules": e["rules"], "dn": [], "ds": [], "cases": [{"w": w, "sent": False, "nd": 0, "fo": -1} for w in e["inputs"][i:i + 500]]}
+            bl = blocks_from_vector(vec, [(0, 1, 0, 1, 1, 0), (0, 1, 0, 1, 2, 0), (1, 1, 0, 1, 3, 0)], mems=(1,), want_trees=False)
+            sblocks.append([ln.replace("X sent=0 nd=-1", "X sent=-1") if ln.startswith("X ") else ln for ln in bl])
+    recs, st = run_harness(os.path.join(builds[0], "yv_replay"), sblocks, args=("-s",))
+    handle_c09_recs(res, recs, mine, {})
     # --- (D) the cache as a state machine (Cache.tla): a reused result is the set a fresh computation gives
     def cache_cfg(maxpl, rec, maxrec):
         return ("SPECIFICATION Spec\nCONSTANTS\n  GrammarsC <- Curated\n  TermsC = {1, 2, 3}\n  MaxPl = %d\n  WithRecovery = %s\n  MaxRec = %d\n"
@@ -1018,10 +1034,19 @@ def check_C11(res, scratch, tier, seed):
                 elif r.get("e") == "Abort":
                     res.violation(abort_key(r), dict(r, block=(r.get("block") or [])[:12]))
             res.cov["traces_validated_against_impl"] += len(blocks)
+    # (1b) texts of definitions with translation defects found while the rules are being read (MCDef.tla): the description parser must hand
+    #      over what it has read, the defect code must come back, and the NEXT text (the blocks follow each other in one process and on
+    #      one object) must be read from its beginning
+    def mk_text(vec):
+        raw = {"terms": vec["terms"], "rules": vec["rules"]}
+        return blocks_from_vector(dict(vec, id="x" + gid_of(vec)), [], codemap="ascii", define_only=True, text_hex=descr_text(raw, CODEMAPS["ascii"]).encode().hex())
+    run_family(res, scratch, "DtransT", mcdef_cfg("NamesPlain", "CodesPlain", 0, "LhsPlain", "RhsPlain", 2, 2, [0, 4, 12, 13]), mk_text, builds=builds[:1],
+               mine=lambda r: classify(dict(r)) if owner(r["what"], r["cfg"], r.get("calls", 0)) in ("C10", "C11", "C15") else None, module="MCDef")
     # (2) mutations judged by TLC
     rnd = random.Random(seed)
     muts = []
     alphabet = b" \n\t;:|#-()=/*'aT0_9Z%\x80\x01"
+    texts = sorted(set(texts))          # TLC's workers print in any order: the sample must not depend on it
     base = rnd.sample(texts, min(len(texts), 300 if tier == "quick" else 1500))
     for tx in base:
         for _ in range(3):
@@ -1850,6 +1875,7 @@ def long_sentence_entries():
         "sameruleorig": [[1] * 6, [1] * 7],
         "ctxfragR": [[1, 3, 7, 8, 4, 2, 1, 5, 7, 8, 6, 2], [1, 3, 7, 8, 6, 2, 1, 5, 7, 8, 6, 2]],
         "staleplace": [[3, 3, 1, 2, 2, 3, 1, 2], [3, 1, 2, 2, 1, 2]],
+        "brackets": [[1, 2, 3, 7, 7, 6, 2, 5, 7, 7, 6], [1, 2, 3, 7, 7, 6, 2, 5, 7, 7, 6, 2, 5, 7, 7, 4], [1, 2, 5, 7, 4, 2, 3, 7, 7, 4, 2, 3, 7, 7, 4]],
     }
     out = []
     for gid, inputs in sel.items():
